@@ -41,7 +41,9 @@ Q       == 2 * F + 1
 PQ      == F + 1
 Rounds  == 1..MaxRound
 None    == "none"
-NoProp  == [round |-> 0, value |-> None, from |-> 0]
+(* acc.value is the accepted proposal's ROOT (what prepares and commits are matched against), acc.data the FullData
+   stored with it (what a local decision reports); isValidProposal makes them equal *)
+NoProp  == [round |-> 0, value |-> None, from |-> 0, data |-> None]
 AllVals == Values \cup BadValues
 Leader(r) == ((LeaderOffset + r - 1) % N) + 1
 ValueOK(v) == v \in Values \/ Weaken = "noValueCheck"
@@ -83,14 +85,17 @@ ValidRC(rc) == rc.pr # 0 => (ValidJust(rc.js, rc.pr, rc.pv) /\ rc.pr <= rc.round
 MaxPr(rcs) == CHOOSE p \in {rc.pr : rc \in rcs} : \A rc \in rcs : rc.pr <= p
 
 (* isProposalJustification(roundChanges = rcs, prepares = pj for (pjpr,pjpv), round r, fullData v) *)
+(* Weaken = "skipForeignLocks": round-changes prepared on ANOTHER value are skipped instead of invalidating the
+   proposal, but still count towards the quorum (a "liveness fix" for the wedge of C07 that forgets the lock rule). *)
+KeptRCs(rcs, v) == IF Weaken = "skipForeignLocks" THEN {rc \in rcs : rc.pr = 0 \/ rc.pv = v} ELSE rcs
 Justified(rcs, pj, pjpr, pjpv, r, v) ==
     /\ ValueOK(v)
     /\ (r # 1 /\ Weaken # "noJustificationCheck") =>
-            /\ \A rc \in rcs : ValidRCFor(rc, r, v)
+            /\ \A rc \in KeptRCs(rcs, v) : ValidRCFor(rc, r, v)
             /\ Card(Signers(rcs)) >= Q
-            /\ (\E rc \in rcs : rc.pr # 0) =>
+            /\ (\E rc \in KeptRCs(rcs, v) : rc.pr # 0) =>
                 /\ Card(pj) >= Q
-                /\ (Weaken # "noHighestPrepared") => (pjpr = MaxPr(rcs))
+                /\ (Weaken # "noHighestPrepared") => (pjpr = MaxPr(KeptRCs(rcs, v)))
                 /\ pjpv = v
                 /\ \A s \in pj : Forgeable(s) \/ PrepSent(s, pjpr, pjpv)
 
@@ -99,7 +104,8 @@ ByzJustifiable(r, v) ==
     /\ ValueOK(v)
     /\ (r # 1 /\ Weaken # "noJustificationCheck") =>
           LET usable == {rc \in sent : /\ rc.type = "rc" /\ (rc.round = r \/ Weaken = "noRCRoundCheck")
-                                       /\ (rc.pr = 0 \/ (rc.pv = v /\ ValidJust(rc.js, rc.pr, rc.pv) /\ rc.pr <= r))}
+                                       /\ (rc.pr = 0 \/ (rc.pv = v /\ ValidJust(rc.js, rc.pr, rc.pv) /\ rc.pr <= r)
+                                               \/ Weaken = "skipForeignLocks")}
           IN Card(Signers(usable) \cup {s \in Ops : Forgeable(s)}) >= Q
 
 (* CreateRoundChange: prepared data + the prepare quorum held for it (none if the container lacks a quorum) *)
@@ -156,15 +162,16 @@ Start(i) ==
     /\ act' = [name |-> "Start", to |-> i, value |-> StartValue[i]]
 
 (* uponProposal (+ isValidProposal's state clause) *)
-DoProposal(i, signer, r, v) ==
+DoProposalD(i, signer, r, v, d) ==
     LET n == st[i] IN
     /\ n.started
     /\ r >= n.round
     /\ (Weaken # "noLeaderCheck") => signer = Leader(IF Weaken = "leaderOfCurrentRound" THEN n.round ELSE r)
     /\ \/ (n.acc = NoProp /\ r = n.round) \/ r > n.round
        \/ (Weaken = "secondProposalSameRound" /\ r = n.round /\ n.acc.value # v)
-    /\ Apply(i, [n EXCEPT !.acc = [round |-> r, value |-> v, from |-> signer], !.round = r],
-             {[type |-> "prepare", signer |-> i, round |-> r, value |-> v]})
+    /\ Apply(i, [n EXCEPT !.acc = [round |-> r, value |-> v, from |-> signer, data |-> d], !.round = r],
+             {[type |-> "prepare", signer |-> i, round |-> r, value |-> d]})   \* uponProposal hashes FullData for its prepare
+DoProposal(i, signer, r, v) == DoProposalD(i, signer, r, v, v)
 
 RecvProposal(i) ==
     \E m \in sent :
@@ -173,6 +180,22 @@ RecvProposal(i) ==
         /\ LocalOK(i, m.round, m.value, \E rc \in m.rcj : rc.pr # 0)
         /\ DoProposal(i, m.signer, m.round, m.value) /\ NoByz
         /\ act' = [name |-> "RecvProposal", to |-> i, from |-> m.signer, round |-> m.round, value |-> m.value]
+
+(* FullData is not covered by the proposal's signature: anybody relaying a proposal (leader included) can substitute it.
+   isValidProposal refuses when H(FullData) # Root - a stuttering step of the faithful spec.  Weaken =
+   "noRootCheckLaterRounds" hashes the data only for round-1 proposals: a later-round proposal whose substituted data is
+   itself justified and passes the value check is accepted with root v and data d (round-3 seed C02-seed5). *)
+RecvSubstProposal(i) ==
+    \E m \in sent, d \in AllVals :
+        /\ m.type = "proposal" /\ d # m.value
+        /\ UseByz("subst")
+        /\ IF /\ Weaken = "noRootCheckLaterRounds" /\ m.round > 1
+              /\ Justified(m.rcj, m.pj, m.pjpr, m.pjpv, m.round, d)
+              /\ LocalOK(i, m.round, d, \E rc \in m.rcj : rc.pr # 0)
+              /\ ENABLED DoProposalD(i, m.signer, m.round, m.value, d)
+           THEN DoProposalD(i, m.signer, m.round, m.value, d)
+           ELSE UNCHANGED <<st, sent>>
+        /\ act' = [name |-> "RecvSubstProposal", to |-> i, from |-> m.signer, round |-> m.round, value |-> m.value, data |-> d]
 
 RecvByzProposal(i) ==
     \E s \in Byz, r \in Rounds, v \in AllVals :
@@ -191,7 +214,7 @@ DoPrepare(i, s, r, v) ==
            after  == Card(Signers(AtRound(newC, r))) >= PQuorum
        IN IF ~before /\ after
           THEN Apply(i, IF Weaken = "noLockOnPrepareQuorum" THEN [n EXCEPT !.prep = newC]
-                        ELSE [n EXCEPT !.prep = newC, !.lpr = r, !.lpv = v],
+                        ELSE [n EXCEPT !.prep = newC, !.lpr = r, !.lpv = n.acc.data],
                      {[type |-> "commit", signer |-> i, round |-> r, value |-> v]})
           ELSE Apply(i, [n EXCEPT !.prep = newC], {})
 
@@ -215,7 +238,7 @@ DoCommit(i, s, r, v) ==
     /\ LET newC == n.comm \cup {[signer |-> s, round |-> r, value |-> v]}
            cs   == Signers({x \in newC : (x.round = r \/ Weaken = "commitAcrossRounds") /\ x.value = v})
        IN IF Card(cs) >= CQuorum
-          THEN Apply(i, [n EXCEPT !.comm = newC, !.decided = TRUE, !.dval = n.acc.value, !.dround = n.round, !.cround = n.round, !.cval = n.acc.value,
+          THEN Apply(i, [n EXCEPT !.comm = newC, !.decided = TRUE, !.dval = n.acc.data, !.dround = n.round, !.cround = n.round, !.cval = n.acc.value,
                                   !.dsigners = cs, !.dlocal = TRUE, !.dfrom = n.acc.from], {})
           ELSE Apply(i, [n EXCEPT !.comm = newC], {})
 
@@ -277,7 +300,7 @@ RecvRelabeled(i) ==
           THEN LET newC == n.comm \cup {[signer |-> s, round |-> n.round, value |-> n.acc.value] : s \in S}
                    cs == Signers({x \in newC : x.round = n.round /\ x.value = n.acc.value})
                IN IF Card(cs) >= CQuorum
-                  THEN Apply(i, [n EXCEPT !.comm = newC, !.decided = TRUE, !.dval = n.acc.value, !.dround = n.round, !.cround = n.round, !.cval = n.acc.value,
+                  THEN Apply(i, [n EXCEPT !.comm = newC, !.decided = TRUE, !.dval = n.acc.data, !.dround = n.round, !.cround = n.round, !.cval = n.acc.value,
                                           !.dsigners = cs, !.dlocal = TRUE, !.dfrom = n.acc.from], {})
                   ELSE Apply(i, [n EXCEPT !.comm = newC], {})
           ELSE UNCHANGED <<st, sent>>
@@ -356,7 +379,7 @@ PrepareQuorumStep(i) ==
           /\ Apply(i, IF Weaken = "noLockOnPrepareQuorum"
                       THEN [n EXCEPT !.prep = {[signer |-> s, round |-> n.round, value |-> n.acc.value] : s \in S}]
                       ELSE [n EXCEPT !.prep = {[signer |-> s, round |-> n.round, value |-> n.acc.value] : s \in S},
-                                     !.lpr = n.round, !.lpv = n.acc.value],
+                                     !.lpr = n.round, !.lpv = n.acc.data],
                    {[type |-> "commit", signer |-> i, round |-> n.round, value |-> n.acc.value]})
           /\ act' = [name |-> "PrepareQuorum", to |-> i, signers |-> S, round |-> n.round, value |-> n.acc.value]
 
@@ -368,13 +391,13 @@ CommitQuorumStep(i) ==
           /\ IF S \cap Byz # {} THEN UseByz("commit") ELSE NoByz
           /\ ~(n.decided /\ n.dval = n.acc.value)
           /\ Apply(i, [n EXCEPT !.comm = {[signer |-> s, round |-> n.round, value |-> n.acc.value] : s \in S},
-                               !.decided = TRUE, !.dval = n.acc.value, !.dround = n.round, !.cround = n.round, !.cval = n.acc.value, !.dsigners = S,
+                               !.decided = TRUE, !.dval = n.acc.data, !.dround = n.round, !.cround = n.round, !.cval = n.acc.value, !.dsigners = S,
                                !.dlocal = TRUE, !.dfrom = n.acc.from], {})
           /\ act' = [name |-> "CommitQuorum", to |-> i, signers |-> S, round |-> n.round, value |-> n.acc.value]
 
 Next == \E i \in Honest :
           \/ Start(i) \/ RecvProposal(i) \/ RecvRC(i) \/ Timeout(i) \/ RecvDecided(i)
-          \/ RecvByzProposal(i) \/ RecvByzRC(i) \/ RecvForgedDecided(i) \/ RecvRelabeled(i)
+          \/ RecvByzProposal(i) \/ RecvByzRC(i) \/ RecvForgedDecided(i) \/ RecvRelabeled(i) \/ RecvSubstProposal(i)
           \/ (Macro /\ (PrepareQuorumStep(i) \/ CommitQuorumStep(i)))
           \/ (~Macro /\ (RecvPrepare(i) \/ RecvCommit(i) \/ RecvByzPrepare(i) \/ RecvByzCommit(i)))
 Spec == Init /\ [][Next]_vars
@@ -387,6 +410,8 @@ DecidedStable == [][\A i \in Honest : st[i].decided => (st'[i].decided /\ st'[i]
 CertValid == \A i \in Honest : st[i].decided =>
                 /\ Card(st[i].dsigners) >= Q /\ st[i].dsigners \subseteq Ops
                 /\ \A s \in st[i].dsigners \cap Honest : CommSent(s, st[i].cround, st[i].cval)
+(* ... the value a local decision reports is the value its certificate is over ("the value hashes to that hash") *)
+LocalDecisionMatchesCert == \A i \in Honest : (st[i].decided /\ st[i].dlocal) => st[i].dval = st[i].cval
 (* ... and, when decided locally, the decided proposal came from the legitimate leader of its round *)
 LocalDecisionFromLeader == \A i \in Honest : (st[i].decided /\ st[i].dlocal) => st[i].dfrom = Leader(st[i].dround)
 (* an honest operator only ever commits to a value that passed its value check *)
